@@ -46,7 +46,7 @@ PROPS = {
     ),
     "C10": dict(
         title="Rounding a datetime yields the correct multiple of the increment for every mode",
-        verus=["round", "rounders"],
+        verus=["round", "rounders", "zonedround"],
         kani_quick=[], kani_thorough=["c10_model"],
         design_ref="DESIGN.md section 4, C10",
     ),
@@ -64,7 +64,7 @@ PROPS = {
     ),
     "C13": dict(
         title="Every Zoned value is internally consistent with its time zone",
-        verus=["zoned", "ambig"],
+        verus=["zoned", "ambig", "zonedround"],
         kani_quick=[], kani_thorough=[],
         design_ref="DESIGN.md section 4, C13",
     ),
